@@ -31,7 +31,9 @@
 (***************************************************************************)
 EXTENDS Naturals, Integers, Sequences, FiniteSets, TLC
 
-CONSTANTS RCell(_, _, _), SCell(_, _, _), LexAt(_, _, _), GR(_)
+CONSTANTS RCell(_, _, _), SCell(_, _, _), LexAt(_, _, _), GR(_),
+          LexLines(_, _, _, _, _, _)   \* (g, bytes, offset, line, col, verbose): the lines the generated lexer prints for this
+                                         \* match in verbose mode, as events (<<>> when not modelled / not verbose)
 
 VARIABLES g, inp, opt,          \* grammar index, input bytes, options [v, ws, nl]
           stack, sstack,        \* state stacks: numbers of the driven table / of the spec's table
@@ -44,10 +46,11 @@ VARIABLES g, inp, opt,          \* grammar index, input bytes, options [v, ws, n
           status,               \* "run" | "acc" | "rej" | "undef" (R/R cell reached: behaviour undefined)
           msgs,                 \* messages written in non-verbose mode, in order
           red,                  \* rule being reduced between the Reduce, Goto and Call steps (-1 otherwise)
-          mxd,                   \* ghost: greatest stack length reached so far (capacity analysis, C12)
+          mxd,                  \* ghost: greatest stack length reached so far (capacity analysis, C12)
+          lexev,                \* ghost: lexer lines that precede the event of the last GetTerm step (C16: truthful trace)
           ev                    \* event emitted by the last step
 
-dvars == <<g, inp, opt, stack, sstack, vals, nodes, it, endIt, cur, line, col, mode, ph, status, msgs, red, mxd, ev>>
+dvars == <<g, inp, opt, stack, sstack, vals, nodes, it, endIt, cur, line, col, mode, ph, status, msgs, red, mxd, lexev, ev>>
 
 TB == 100
 EofOf(gg) == TB + GR(gg).nt
@@ -74,7 +77,7 @@ Init0(gg, bytes, o) ==
   /\ g = gg /\ inp = bytes /\ opt = o
   /\ stack = <<0>> /\ sstack = <<0>> /\ vals = <<>> /\ nodes = <<>>
   /\ it = 0 /\ endIt = 0 /\ cur = -1 /\ line = 1 /\ col = 1
-  /\ mode = "normal" /\ ph = "top" /\ status = "run" /\ msgs = <<>> /\ red = -1 /\ mxd = 1 /\ ev = <<"tau">>
+  /\ mode = "normal" /\ ph = "top" /\ status = "run" /\ msgs = <<>> /\ red = -1 /\ mxd = 1 /\ lexev = <<>> /\ ev = <<"tau">>
 
 NeedTerm == (ph = "top" /\ mode # "recovery" /\ it = endIt) \/ ph = "lexed"
 HaveTerm == ph = "act" \/ (ph = "top" /\ (mode = "recovery" \/ it # endIt))
@@ -260,9 +263,12 @@ Undefined ==             \* R/R cell: the readme declares the behaviour undefine
   /\ status' = "undef" /\ ev' = <<"tau">> /\ ph' = "top"
   /\ UNCHANGED <<red, g, inp, opt, stack, sstack, vals, nodes, it, endIt, cur, line, col, mode, msgs>>
 
-DStep == LexCall \/ GetTerm \/ ConsumeFailEof \/ ConsumeDiscard \/ SynErr \/ EnterRecovery \/ RecoverPop \/ LeaveConsume
-         \/ Shift \/ TermValue \/ ShiftError \/ LeaveRecovery \/ EnterConsume \/ Reduce \/ Goto \/ Call \/ Accept \/ Undefined
-DNext == DStep /\ mxd' = IF Len(stack') > mxd THEN Len(stack') ELSE mxd
+DOther == LexCall \/ ConsumeFailEof \/ ConsumeDiscard \/ SynErr \/ EnterRecovery \/ RecoverPop \/ LeaveConsume
+          \/ Shift \/ TermValue \/ ShiftError \/ LeaveRecovery \/ EnterConsume \/ Reduce \/ Goto \/ Call \/ Accept \/ Undefined
+\* (GetTerm additionally says which lines the generated lexer prints, in verbose mode, before its own event)
+DNext == /\ \/ (GetTerm /\ lexev' = IF it' < Len(inp) THEN LexLines(g, inp, it', line', col', opt.v) ELSE <<>>)
+            \/ (DOther /\ lexev' = <<>>)
+         /\ mxd' = IF Len(stack') > mxd THEN Len(stack') ELSE mxd
 
 (************************* invariants of every driver state ***************)
 StacksInSync == /\ Len(stack) = Len(sstack)
